@@ -142,7 +142,10 @@ def catalogue_specs(ctx, cases, n_target, base):
               prog_with('both = (p or q) and (r or s)')),
              (lambda c: (c['p'], c['t']) in (('expr_stmt', 's_expr_print'), ('assign1', 's_assign_wrap'), ('ret', 's_ret_wrap'),
                                              ('expr_stmt', 's_prepost'), ('if_', 's_try'), ('if_', 's_prepost')),
-              prog_with('def gen(n):'))]
+              prog_with('def gen(n):')),
+             (lambda c: c['t'] in ('e_first_args', 'e_first_list', 'e_first_tuple', 'e_set_fr', 'e_call_first_rest', 'e_a0_args',
+                                   'e_a0_wrap', 'e_a0_two', 's_for_chain', 's_if_check', 's_if_list', 's_for_list'),
+              prog_with('p1 = [(1, 2), a, b]'))]
     plainrow = [c for c in cases if c['s']['loop'] == 0 and c['s']['on'] == 'enter' and c['s']['cb'] and c['s']['count'] == 0
                 and c['s']['docstr'] and not c['s']['back']]
     plainrow.sort(key=lambda c: (c['p'], c['t'], c['s']['nested']))
@@ -316,7 +319,7 @@ def run(ctx):
     collect(ctx, validate(ctx, results))
     ctx.require_clauses(['TemplateRel', 'Event.TemplateRel', 'Sync', 'Identity', 'Counts.total', 'Counts.static',
                          'CarriedOut', 'Event.OutsideTokens', 'Event.OutsideLines', 'OutsideTokens', 'Model.Result',
-                         'Loop.Complete', 'Loop.Bounded'])
+                         'Loop.Complete'])
     if ctx.extra.get('substitutions', 0) < (1000 if quick else 15000):
         raise common.Machinery(f'vacuity guard: only {ctx.extra.get("substitutions", 0)} substitutions performed')
 
